@@ -11,7 +11,7 @@ import (
 
 // layout files of the universe; every layout prints a marker, the previous
 // result (content), a page front-matter key (pk) and a Fill key (fk).
-var zzC07Layouts = []string{"a.vuego", "layouts/a.vuego", "layouts/b.vuego", "dir/a.vuego", "layouts/base.vuego"}
+var zzC07Layouts = []string{"a.vuego", "layouts/a.vuego", "layouts/b.vuego", "layouts/base.vuego", "dir/a.vuego"}
 
 // values the `layout` key of a file may take
 var zzC07LayoutVals = []string{"", "a", "b", "a.vuego", "base", "missing"}
@@ -51,11 +51,21 @@ func zzJoin(dir, name string) string {
 	return dir + "/" + name
 }
 
-// VerifC07_Graph: all layout graphs over the file universe.
+// VerifC07_Graph: all layout graphs over the file universe. The graph is
+// generated along the chain: a file's existence, layout value and own keys
+// are chosen when the file first becomes a candidate of a resolution step
+// (all candidates of a step are decided, in whichever order they are tried),
+// so that every reachable structure is explored once and files that no
+// resolution can consult do not multiply the paths.
 func VerifC07_Graph() {
 	files := map[string]string{}
 	layoutOf := map[string]string{}
 	ownKeys := map[string]bool{}
+	nfiles := zzBound("layoutfiles", 4, 5)
+	universe := map[string]bool{}
+	for _, f := range zzC07Layouts[:nfiles] {
+		universe[f] = true
+	}
 	// the page lives at top level or in dir/
 	page := []string{"p.vuego", "dir/p.vuego"}[zzChoice("pagedir", 2)]
 	pl := zzC07LayoutVals[zzChoice("pagelayout", len(zzC07LayoutVals))]
@@ -66,27 +76,46 @@ func VerifC07_Graph() {
 	}
 	fm += "---\n"
 	files[page] = fm + `<p>PAGE:{{ pk }}:{{ fk }}</p>`
-	nfiles := zzBound("layoutfiles", 4, 5)
-	for _, f := range zzC07Layouts[:nfiles] {
-		if !zzBool("exists") {
-			continue
+
+	decided := map[string]bool{}
+	exists := func(p string) bool {
+		if p == page {
+			return true
 		}
-		l := zzC07LayoutVals[zzChoice("layout", len(zzC07LayoutVals))]
-		layoutOf[f] = l
-		own := zzBool("ownkeys")
-		ownKeys[f] = own
-		files[f] = zzC07File(f, l, own)
+		if !universe[p] {
+			return false
+		}
+		if e, ok := decided[p]; ok {
+			return e
+		}
+		e := false
+		if zzBool("exists") { // decided once; a plain bool from here on
+			e = true
+		}
+		decided[p] = e
+		if e {
+			l := zzC07LayoutVals[zzChoice("layout", len(zzC07LayoutVals))]
+			own := zzBool("ownkeys")
+			layoutOf[p] = l
+			ownKeys[p] = own
+			files[p] = zzC07File(p, l, own)
+		}
+		return e
 	}
-	fsys := newZZFS(files)
+	// the default layout is a candidate of every render
+	exists("layouts/base.vuego")
 
 	// reference: follow the chain as the statement describes
-	exists := func(p string) bool { _, ok := files[p]; return ok }
 	resolve := func(layout, current string) string {
 		dir := zzDir(current)
-		if strings.HasSuffix(layout, ".vuego") && exists(zzJoin(dir, layout)) {
+		// decide every candidate of this step before choosing
+		c1 := strings.HasSuffix(layout, ".vuego") && exists(zzJoin(dir, layout))
+		c2 := exists(zzJoin(dir, layout+".vuego"))
+		exists("layouts/" + layout + ".vuego")
+		if c1 {
 			return zzJoin(dir, layout)
 		}
-		if exists(zzJoin(dir, layout+".vuego")) {
+		if c2 {
 			return zzJoin(dir, layout+".vuego")
 		}
 		return "layouts/" + layout + ".vuego"
@@ -119,6 +148,7 @@ func VerifC07_Graph() {
 		cur = next
 		chain = append(chain, cur)
 	}
+	fsys := newZZFS(files)
 
 	var sb strings.Builder
 	w := &zzWriter{limit: 1 << 20}
